@@ -14,7 +14,7 @@ import (
 func init() {
 	Registry["C03"] = c03
 	Metas["C03"] = Meta{Level: "other", NeedCG: true, Technique: "static analysis: call-graph who-may-call, finite-domain decision table of the signer extracted from SSA, dominance / edge-dominance of persist-before-release",
-		Explain: "Static analysis of the signer. Decided: (R1) who may call a private-key Sign in node code; (R2) the height/round/step decision table of signBytesHRS, extracted exhaustively over the finite domain of orderings (3x3x3 x nil-ness x equality = 216 abstract states) and compared with the specification table; (R3) on every path of signBytesHRS that returns a fresh signature the five watermark fields are stored, save() is called, and its error is tested before the signature is released; save() propagates the atomic write's error; WriteFileAtomic writes the target only by rename after a successful temp write; (R4) a refused signature reaches neither a no-return call nor the internal message queue. NOT decided: durability under power loss (no fsync), the file system's rename semantics, and the behaviour over actual histories — this check decides these structural clauses and not the behaviour.",
+		Explain: "Static analysis of the signer. Decided: (R1) who may call a private-key Sign in node code; (R2) the height/round/step decision table of signBytesHRS, extracted exhaustively over the finite domain of orderings (3x3x3 x nil-ness x equality = 216 abstract states) and compared with the specification table; (R3) on every path of signBytesHRS that returns a fresh signature the five watermark fields are stored, save() is called, and its error is tested before the signature is released; save() propagates the atomic write's error; WriteFileAtomic writes the target only by rename after a successful temp write; (R4) a refused signature reaches neither a no-return call nor the internal message queue; (R5) the check-sign-persist sequence runs under the signer's mutex without releasing it, and a failed save restores all five watermark fields to their pre-update values. NOT decided: durability under power loss (no fsync), the file system's rename semantics, and the behaviour over actual histories — this check decides these structural clauses and not the behaviour.",
 		Assume: []string{"process-crash model: rename(2) after a completed write is atomic", "go/ssa faithfully represents the source", "lexicographic H/R/S comparison uses only the comparisons present in signBytesHRS (any other branch condition forks both ways)"},
 	}
 }
@@ -26,6 +26,7 @@ func c03(c *Ctx) {
 	c03R2(c)
 	c03R3(c)
 	c03R4(c)
+	c03R5(c)
 }
 
 // R1 ---------------------------------------------------------------------------------------------
@@ -380,5 +381,87 @@ func signTolerantRule(c *Ctx, id string) {
 			}
 		}
 		c.R.Ob(rule, "signVote:returns-SignVote-error", ok, c.P.Pos(f.F.Pos()), fname(f), "signVote must return the error of privValidator.SignVote")
+	}
+}
+
+// R5: the watermark test, the signature and the persisted update form one critical section; a failed
+// save rolls the whole in-memory watermark back.
+func c03R5(c *Ctx) {
+	rule := c.R.Rule("R5", "atomic check-sign-persist: every caller of signBytesHRS holds PrivValidator.mtx (Lock dominates the call, Unlock is deferred); neither signBytesHRS nor save()/Sign reachable from it releases that mutex; on the save-error path each of the five watermark fields is restored to the value it had before the update (a load that precedes the update store), and nothing else is stored to them", 9)
+	f := c.Anchor(rule, pvType+".signBytesHRS")
+	if f == nil {
+		return
+	}
+	// (a) callers hold the lock
+	ncall := 0
+	for _, s := range c.AllCalls(cfgx.Named(pvType + ".signBytesHRS")) {
+		ncall++
+		locked, deferred := false, false
+		for _, ci := range s.Fn.Calls() {
+			m, acq, ok := isLockCall(ci)
+			if !ok || m != "a0.mtx" {
+				continue
+			}
+			if _, isDefer := ci.(*ssa.Defer); isDefer && !acq {
+				deferred = true
+			} else if acq && s.Fn.Dominates(ci.(ssa.Instruction), s.Call.(ssa.Instruction)) {
+				locked = true
+			} else if !acq {
+				// an explicit unlock before the call releases the section
+				if s.Fn.Reaches(ci.(ssa.Instruction), s.Call.(ssa.Instruction)) {
+					locked = false
+				}
+			}
+		}
+		c.R.Ob(rule, "caller-holds-mtx:"+core.Short(fname(s.Fn)), locked && deferred, c.Pos(s.Call), fname(s.Fn), "signBytesHRS must run with the signer's mutex held until return (Lock before, deferred Unlock)")
+	}
+	c.R.Ob(rule, "signBytesHRS-callers", ncall >= 2, "-", "", fmt.Sprintf("%d", ncall))
+	// (b) no lock operation on the signer's mutex inside the section
+	for _, fn := range []*cfgx.Fn{f, c.Anchor(rule, pvType+".save")} {
+		if fn == nil {
+			continue
+		}
+		bad := ""
+		for _, ci := range fn.Calls() {
+			if m, _, ok := isLockCall(ci); ok && strings.HasSuffix(m, ".mtx") && strings.HasPrefix(m, "a0") {
+				bad = c.Pos(ci)
+			}
+		}
+		c.R.Ob(rule, "no-lock-op-inside:"+core.Short(fname(fn)), bad == "", c.P.Pos(fn.F.Pos()), fname(fn), "releasing (or re-taking) the signer's mutex between the watermark test and the persisted update lets a concurrent request pass the same test; at "+bad)
+	}
+	// (c) rollback on the save-error edge
+	var save ssa.Instruction
+	for _, ci := range f.CallsTo(cfgx.Named(pvType + ".save")) {
+		save = ci
+	}
+	if save == nil {
+		c.R.Undecided(rule, "rollback", c.P.Pos(f.F.Pos()), fname(f), "no save() call")
+		return
+	}
+	saveExpr := exprOf(save.(ssa.Value))
+	for _, fld := range []string{"LastHeight", "LastRound", "LastStep", "LastSignature", "LastSignBytes"} {
+		var update *ssa.Store
+		var restore *ssa.Store
+		for _, st := range f.FieldStores("gemmill/types.PrivValidator", fld) {
+			if f.Dominates(st, save) {
+				update = st
+			} else if f.HasGuard(st, eqs("("+saveExpr+" != nil)")) {
+				restore = st
+			}
+		}
+		ok := false
+		detail := "no restoring store on the save-error path"
+		if update != nil && restore != nil {
+			if ld, isLoad := restore.Val.(*ssa.UnOp); isLoad {
+				if fa, isFA := ld.X.(*ssa.FieldAddr); isFA && cfgx.IsField(fa, "gemmill/types.PrivValidator", fld) && exprOf(fa.X) == "a0" && f.Dominates(ld, update) {
+					ok = true
+				} else {
+					detail = "restored from " + exprOf(restore.Val) + " which is not the pre-update value of this field"
+				}
+			} else {
+				detail = "restored value is not a load of the field taken before the update"
+			}
+		}
+		c.R.Ob(rule, "rollback:"+fld, ok, c.Pos(save), fname(f), "after a failed save the in-memory "+fld+" must again equal the file's (pre-update) value, otherwise the same-HRS branch hands out a signature that was never made durable: "+detail)
 	}
 }
